@@ -128,6 +128,90 @@ let errclass (e : proto_error option) = match e with
 let rec repeat_z n = if n <= 0 then [] else Z0 :: repeat_z (n - 1)
 let big_fuel = nat_of_int 4000
 
+(* ---- thrift ---- *)
+let rec tty_of_sx (x : sx) : tty =
+  match x with
+  | Atom "bool" -> ThBool | Atom "i8" -> ThI8 | Atom "i16" -> ThI16 | Atom "i32" -> ThI32
+  | Atom "i64" | Atom "int" -> ThI64 | Atom "f64" -> ThF64 | Atom "str" -> ThStr | Atom "bytes" -> ThBytes
+  | List [Atom "list"; t] -> ThList (tty_of_sx t)
+  | List [Atom "set"; t] -> ThSet (tty_of_sx t)
+  | List [Atom "map"; k; v] -> ThMap (tty_of_sx k, tty_of_sx v)
+  | List [Atom "ptr"; t] -> ThPtr (tty_of_sx t)
+  | List (Atom "struct" :: fs) ->
+      ThStruct (List.map (fun f -> match f with
+        | List [Atom "f"; Atom id; Atom fl; t] -> TField (z_of_int (int_of_string id), z_of_int (int_of_string fl), tty_of_sx t)
+        | _ -> failwith "bad thrift field") fs)
+  | _ -> failwith "bad thrift type"
+
+let rec tval_of_sx (t : tty) (x : sx) : tval =
+  match t, x with
+  | ThBool, Atom a -> TvBool (a = "t")
+  | (ThI8 | ThI16 | ThI32 | ThI64 | ThF64), Atom a -> TvInt (z_of_string a)
+  | ThStr, Atom a -> TvBytes (true, hexpart a)
+  | ThBytes, Atom "nil" -> TvBytes (false, [])
+  | ThBytes, Atom a -> TvBytes (true, hexpart a)
+  | ThPtr _, Atom "nil" -> TvPtr None
+  | ThPtr t', List [Atom "p"; v] -> TvPtr (Some (tval_of_sx t' v))
+  | ThList _, Atom "nil" -> TvList (false, [])
+  | ThList t', List (Atom "l" :: vs) -> TvList (true, List.map (tval_of_sx t') vs)
+  | ThSet _, Atom "nil" -> TvSet (false, [])
+  | ThSet k, List (Atom "e" :: vs) -> TvSet (true, List.map (tval_of_sx k) vs)
+  | ThMap (_, _), Atom "nil" -> TvMap (false, [])
+  | ThMap (kt, vt), List (Atom "m" :: es) ->
+      TvMap (true, List.map (fun e -> match e with List [k; v] -> (tval_of_sx kt k, tval_of_sx vt v) | _ -> failwith "bad entry") es)
+  | ThStruct fs, List (Atom "s" :: vs) -> TvStruct (List.map2 (fun f v -> match f with TField (_, _, ft) -> tval_of_sx ft v) fs vs)
+  | _ -> failwith "bad thrift value"
+
+let two63 = z_of_string "9223372036854775808"
+let rec tcanon (t : tty) (v : tval) : string =
+  match t, v with
+  | _, TvBool b -> if b then "t" else "f"
+  | ThF64, TvInt z -> if string_of_z z = "9223372036854775808" then "0" else string_of_z z
+  | _, TvInt z -> string_of_z z
+  | ThStr, TvBytes (_, s) -> "s:" ^ hexstr s
+  | _, TvBytes (_, s) -> "b:" ^ hexstr s
+  | _, TvPtr None -> "nil"
+  | ThPtr t', TvPtr (Some x) -> "(p " ^ tcanon t' x ^ ")"
+  | ThList t', TvList (_, vs) -> "(l" ^ String.concat "" (List.map (fun x -> " " ^ tcanon t' x) vs) ^ ")"
+  | ThStruct fs, TvStruct vs ->
+      "(s" ^ String.concat "" (List.map2 (fun f x -> match f with TField (_, _, ft) -> " " ^ tcanon ft x) fs vs) ^ ")"
+  | ThSet k, TvSet (_, ks) -> "(e " ^ String.concat " " (List.sort compare (List.map (tcanon k) ks)) ^ ")"
+  | ThMap (kt, vt), TvMap (_, es) ->
+      "(m " ^ String.concat " " (List.sort compare (List.map (fun (k, x) -> "(" ^ tcanon kt k ^ " " ^ tcanon vt x ^ ")") es)) ^ ")"
+  | _ -> "?"
+
+let tproto_of = function "c" -> PCompact | _ -> PBinary
+let terr_name = function EEOF -> "eof" | EUnexpectedEOF -> "ueof" | EOther -> "other" | EMissing -> "missing" | EMismatch -> "mismatch"
+
+let thrift_run fn argstr =
+  match fn, String.split_on_char '|' argstr with
+  | ("t.rt" | "t.reset"), [ts; vs; p] ->
+      let t = tty_of_sx (parse_sx ts) in
+      let v = tval_of_sx t (parse_sx vs) in
+      let b = tMarshal (tproto_of p) t v in
+      if not (ty_ok t && tval_wf t v) then "NOT-IN-UNIVERSE" else
+      (match tUnmarshal (nat_of_int (2 * List.length b + 50)) (tproto_of p) t b with
+       | TOk r -> if tcanon t (tnorm t r) = tcanon t (tnorm t v) then tcanon t r else "SPEC-REFUTED:" ^ tcanon t r
+       | TErr _ -> if fn = "t.rt" then "err:unmarshal" else "err:decode-after-reset"
+       | TPanic -> "PANIC"
+       | TOutOfFuel -> "OUTOFFUEL")
+  | "t.enc", [ts; vs; p] ->
+      let t = tty_of_sx (parse_sx ts) in
+      let v = tval_of_sx t (parse_sx vs) in
+      let mb = tMarshal (tproto_of p) t v in
+      if not (ty_ok t && tval_wf t v) then "NOT-IN-UNIVERSE"
+      else if spec_enc pkg_dev (tproto_of p) t v <> mb then "SPEC-REFUTED:" ^ hex_of_bytes (spec_enc pkg_dev (tproto_of p) t v)
+      else hex_of_bytes mb
+  | "t.dec", [ts; h; p] ->
+      let t = tty_of_sx (parse_sx ts) in
+      let b = bytes_of_hex h in
+      (match tUnmarshal (nat_of_int (List.length b + 50)) (tproto_of p) t b with
+       | TOk r -> tcanon t r
+       | TErr e -> "err:" ^ terr_name e
+       | TPanic -> "PANIC"
+       | TOutOfFuel -> "OUTOFFUEL")
+  | _ -> "-\t-"
+
 let json_run fn argstr =
   match fn, String.split_on_char ' ' argstr with
   | "j.valid", [h] ->
@@ -242,6 +326,7 @@ let () =
       | fn :: args :: _ ->
           let r = (try (if String.length fn > 2 && String.sub fn 0 2 = "p." then proto_run fn args
                     else if String.length fn > 2 && String.sub fn 0 2 = "j." then json_run fn args
+                    else if String.length fn > 2 && String.sub fn 0 2 = "t." then thrift_run fn args
                     else run fn (split_on ' ' args))
                    with e -> "model-exception:" ^ Printexc.to_string e) in
           print_endline r
